@@ -281,7 +281,13 @@ func main() {
 		if r.converted != nil {
 			fmt.Println("CONVERTED SDL:\n" + r.converted.SDL(&sd.SDLOpts{SchemaBlock: true}))
 		}
-		if len(os.Args) > 3 {
+		if len(os.Args) > 4 {
+			vars := ""
+			if len(os.Args) > 5 {
+				vars = os.Args[5]
+			}
+			fmt.Println("RESPONSE:", engineRun(string(b), os.Args[4], vars))
+		} else if len(os.Args) > 3 {
 			fmt.Println("ENGINE:", engineCheck(string(b), r, common.NewRand(1)))
 		}
 		return
